@@ -99,6 +99,9 @@ def gen_state(rng, n, tier):
         bstate = {}
         for h in range(1, r.randint(1, 3)):
             b = change_set(r)
+            if r.random() < 0.35:
+                c0 = r.choice(list(CODES))
+                b[(r.choice(ACCTS), "code")] = c0          # a contract account in the committed base
             bstate.update(b)
             base += ops_of(b, list(b)) + ["finalise", "flush", f"commit {h}"]
         # commit timing: the node commits a block while it already executes the next one.  Shape of such a history: block A
@@ -146,11 +149,23 @@ def gen_state(rng, n, tier):
             if extra == "shuffled+reads":
                 # exactly one kind of variation per history, so that a differing root is attributed to it
                 variant = "late-commit" if late else r.choice(["shuffle", "reopen", "evict", "reads", "overwritten", "noop-account-write", "balance-by-delta", "balance-by-delta",
-                                    "reverted-write", "reverted-write"])
+                                    "reverted-write", "reverted-write", "reopen-then-reads", "reopen-then-reads"])
                 if variant == "balance-by-delta" and not any(t[1] == "bal" for t in c):
                     variant = "shuffle"
                 if variant == "reopen" and hbase:
                     ops.append("reopen")
+                elif variant == "reopen-then-reads":
+                    # accounts of the committed base (contract accounts among them) are loaded from the database again — after a
+                    # restart, or after the caches dropped them — and only looked at: balance, nonce, a storage key
+                    if hbase:
+                        if r.random() < 0.6:
+                            ops.append("reopen")
+                        else:
+                            for a in ACCTS:
+                                ops.append(f"evict state {a}")
+                                ops.append(f"evict inner {a}")
+                    for a in r.sample(ACCTS, min(len(ACCTS), r.randint(2, 4))):
+                        ops.append(r.choice([f"bal {a}", f"nonce {a}", f"get {a} {r.choice(KEYS)}"]))
                 elif variant == "evict" and hbase:
                     ops.append(f"evict state {r.choice(ACCTS)}")
                     ops.append(f"evict inner {r.choice(ACCTS)}")
